@@ -266,7 +266,11 @@ func main() {
 	G := newStats()
 	phase := map[string]float64{}
 	last := r.Elapsed().Seconds()
-	mark := func(name string) { now := r.Elapsed().Seconds(); phase[name] = float64(int((now-last)*100)) / 100; last = now }
+	mark := func(name string) {
+		now := r.Elapsed().Seconds()
+		phase[name] = float64(int((now-last)*100)) / 100
+		last = now
+	}
 	report1 := func(c Case, fails []fail) {
 		for _, f := range fails {
 			r.Violation(f.sig, f.what, c)
@@ -600,7 +604,7 @@ func main() {
 		Validated:   G.n["A.inputs"] + G.n["A+.inputs"] + G.n["A2.new"] + G.n["A3.new"] + G.n["B.compared-with-encoding/json"],
 		Evaluations: decCalls + G.n["B.depth1.values"] + G.n["B.depth2.values"] + G.n["B.depth3.values"] + scriptRuns + G.n["B.other-type-values(no-panic-only)"],
 		Nontrivial:  G.n["A.valid"] + G.n["A+.valid"] + G.n["A2.new-valid"] + G.n["A3.new-valid"] + G.n["B.depth1.values"] + G.n["B.depth2.values"] + G.n["B.depth3.values"],
-		Rule: "decoder inputs: every string of <= L symbols over the prefix-free 26-symbol alphabet (prefix-free => distinct symbol sequences are distinct byte strings), every string of exactly L+1 symbols over a 15-symbol sub-alphabet, plus every string literal of <= K atoms over a prefix-free atom set and three explicit families, each counted only if not already contained in an earlier part (membership decided by unique decoding, families deduplicated by a set); encoder values: distinct by construction (distinct scalar names, ordered children, key pairs a<b; depth-3 indices whose children are all scalars are skipped as duplicates of depth 2). state = one distinct input/value; transition = one Decode/Encode call or script run on the implementation; validated = inputs whose accept/reject verdict (and, when valid, value) was compared with encoding/json + encoder values whose text encoding/json read back; non-trivial = distinct decoder inputs that encoding/json calls valid + all encoder values",
+		Rule:        "decoder inputs: every string of <= L symbols over the prefix-free 26-symbol alphabet (prefix-free => distinct symbol sequences are distinct byte strings), every string of exactly L+1 symbols over a 15-symbol sub-alphabet, plus every string literal of <= K atoms over a prefix-free atom set and three explicit families, each counted only if not already contained in an earlier part (membership decided by unique decoding, families deduplicated by a set); encoder values: distinct by construction (distinct scalar names, ordered children, key pairs a<b; depth-3 indices whose children are all scalars are skipped as duplicates of depth 2). state = one distinct input/value; transition = one Decode/Encode call or script run on the implementation; validated = inputs whose accept/reject verdict (and, when valid, value) was compared with encoding/json + encoder values whose text encoding/json read back; non-trivial = distinct decoder inputs that encoding/json calls valid + all encoder values",
 	})
 }
 
